@@ -163,7 +163,7 @@ def run(tier, seed):
     ok, info = prep(PROP)
     ob, dis = proof_gate(rep, PROP, ok, info)
     rng = random.Random(seed)
-    n_text, n_tree, n_lay = (400, 300, 120) if tier == "quick" else (6000, 5000, 2500)
+    n_text, n_tree, n_lay = (400, 300, 120) if tier == "quick" else (15000, 12000, 5000)
 
     # corpus first
     corpus = []
